@@ -25,6 +25,21 @@
 //	before, the loop waited in that send and no other request was served: oracle collector-blocked.
 //
 // Output:      h<h>=<tag> | h<h>=-    the arrival each instance's stage reported with
+//
+// Case line:   inc <rid0;rid1;…> <ev,ev,…>        (incarnations of ONE request id: registered, completed /
+//
+//	cancelled, registered again - shares of the earlier incarnation arriving late)
+//
+//	2-of-2 group, every instance has the real recoverSign as its stage and an OWN share on a content class
+//	(fed to the stage before it registers, as dispatchSign does): r<h>.<j>.<c> registers instance h for id j with
+//	own content class c; a<j>.<c> the peer's valid share for id j on content class c arrives; c<h>; x.
+//	The loop routes by request id only; the stage counts a share only if its content (and type) is its own.
+//	Oracle: a pipeline never reports another content than its own (a share of the earlier incarnation is not
+//	counted by the later one unless it is a share on the later one's content); at most one report; a pipeline
+//	that is the last to register its id, registered once and not cancelled reports when a share on its
+//	content arrives for its id after its registration.
+//
+// Output:      h<h>=c<class> | h<h>=-
 package c13
 
 import (
@@ -72,10 +87,42 @@ func init() {
 type ev struct {
 	kind byte // a r c x
 	h, j int
+	c    int // inc lines: content class
+}
+
+func parseInc(w []string) (rids [][]byte, evs []ev) {
+	for _, s := range strings.Split(w[1], ";") {
+		rids = append(rids, h.UnHex(s))
+	}
+	if w[2] == "-" {
+		return
+	}
+	for _, t := range strings.Split(w[2], ",") {
+		p := strings.Split(t[1:], ".")
+		switch {
+		case t[0] == 'a' && len(p) == 2:
+			evs = append(evs, ev{kind: 'a', j: h.Atoi(p[0]), c: h.Atoi(p[1])})
+		case t[0] == 'r' && len(p) == 3:
+			evs = append(evs, ev{kind: 'r', h: h.Atoi(p[0]), j: h.Atoi(p[1]), c: h.Atoi(p[2])})
+		case t[0] == 'c' && len(p) == 1:
+			evs = append(evs, ev{kind: 'c', h: h.Atoi(p[0])})
+		case t == "x":
+			evs = append(evs, ev{kind: 'x'})
+		default:
+			panic("bad inc event " + t)
+		}
+		if e := evs[len(evs)-1]; e.j >= len(rids) {
+			panic("bad rid index")
+		}
+	}
+	return
 }
 
 func parse(line string) (rids [][]byte, evs []ev) {
 	w := strings.Fields(line)
+	if len(w) == 3 && w[0] == "inc" {
+		return parseInc(w)
+	}
 	if len(w) != 3 || (w[0] != "loop" && w[0] != "stage") {
 		panic("bad case line")
 	}
@@ -129,6 +176,7 @@ type inst struct {
 	regAt  int // position of the first registration
 	// number of shares received when the instance was cancelled
 	gotAtCancel int
+	class       int // inc lines: own content class
 }
 
 var quiet = doubles.NewLogger()
@@ -441,6 +489,251 @@ func oracleStage(rids [][]byte, evs []ev, insts map[int]*inst) string {
 	return ""
 }
 
+// ---------------------------------------------------------------- inc lines: incarnations of one request id
+
+var (
+	key2Once sync.Once
+	key2Pub  *share.PubPoly
+	key2Sh   []*share.PriShare
+	incMu    sync.Mutex
+	incSigs  = map[[2]int][]byte{}
+)
+
+func twoOfTwo() (*share.PubPoly, []*share.PriShare) {
+	key2Once.Do(func() {
+		pri := share.CoefficientsToPriPoly(suite.G2(), []kyber.Scalar{suite.G2().Scalar().SetInt64(0x5eed14), suite.G2().Scalar().SetInt64(0x5eed15)})
+		key2Pub = pri.Commit(suite.G2().Point().Base())
+		key2Sh = pri.Shares(2)
+	})
+	return key2Pub, key2Sh
+}
+
+func incContent(c int) []byte { return append([]byte{byte(c)}, bytes.Repeat([]byte{0xad}, 20)...) }
+
+// incShare: member m's valid share on content class c
+func incShare(m, c int) []byte {
+	incMu.Lock()
+	defer incMu.Unlock()
+	if s, ok := incSigs[[2]int{m, c}]; ok {
+		return s
+	}
+	_, sh := twoOfTwo()
+	s, err := tbls.Sign(suite, sh[m], incContent(c))
+	if err != nil {
+		panic(err)
+	}
+	incSigs[[2]int{m, c}] = s
+	return s
+}
+
+func runInc(rids [][]byte, evs []ev) map[int]*inst {
+	pub, _ := twoOfTwo()
+	id := []byte("verif-c13-node-00003")
+	pd := doubles.NewP2P(id, 0)
+	node := dosnode.VerifNewNode(id, pd, nil, nil, 0, quiet)
+	loopDone := make(chan struct{})
+	go func() { node.VerifQueryLoop(); close(loopDone) }()
+	insts := map[int]*inst{}
+	outClosed := map[int]chan struct{}{}
+	get := func(k int) *inst {
+		if in, ok := insts[k]; ok {
+			return in
+		}
+		in := &inst{reply: make(chan *vss.Signature), rids: map[int]bool{}, cancAt: -1, class: -1}
+		in.ctx, in.cancel = context.WithCancel(context.Background())
+		insts[k] = in
+		return in
+	}
+	deliver := func(m proto.Message) { pd.Deliver([]byte("peer"), m) }
+	// settle: a message the stage skips (nil Signature) is sent on the stage's own input; the unbuffered send
+	// completes only when the stage (or, once it returned, its drain) takes it, i.e. after everything the loop
+	// handed over before has been processed - and a report, if any, has been emitted.
+	settle := func(k int, in *inst) {
+		if outClosed[k] == nil {
+			return
+		}
+		select {
+		case in.reply <- &vss.Signature{}:
+		case <-outClosed[k]:
+			select {
+			case in.reply <- &vss.Signature{}:
+			case <-in.ctx.Done():
+			case <-time.After(5 * time.Second):
+			}
+		case <-time.After(5 * time.Second):
+		}
+	}
+	for i, e := range evs {
+		switch e.kind {
+		case 'a':
+			deliver(&vss.Signature{Index: 0, RequestId: rids[e.j], Nonce: []byte(strconv.Itoa(i)), Content: incContent(e.c), Signature: incShare(1, e.c)})
+		case 'x':
+			deliver(&vss.PublicKey{})
+		case 'r':
+			in := get(e.h)
+			in.rids[e.j] = true
+			if in.regs == 0 {
+				in.regAt = i
+				in.class = e.c
+				k := e.h
+				out, errc := dosnode.VerifRecoverSign(in.ctx, in.reply, suite, pub, 2, 2, quiet)
+				outClosed[k] = make(chan struct{})
+				go func() {
+					for range errc {
+					}
+				}()
+				go func() {
+					for s := range out {
+						in.mu.Lock()
+						cls := -1
+						if len(s.Content) == 1 {
+							cls = int(s.Content[0])
+						}
+						in.got = append(in.got, got{tag: cls, rid: s.RequestId})
+						in.mu.Unlock()
+					}
+					close(outClosed[k])
+				}()
+				// dispatchSign: the own share goes to the stage before the registration
+				// (in a select with the context, as dispatchSign does: the pipeline may have been cancelled already)
+				select {
+				case in.reply <- &vss.Signature{Index: 0, RequestId: rids[e.j], Content: incContent(e.c), Signature: incShare(0, e.c)}:
+				case <-in.ctx.Done():
+				}
+			}
+			in.regs++
+			node.VerifRegisterChan(in.ctx, string(rids[e.j]), 2, in.reply)
+		case 'c':
+			in := get(e.h)
+			deliver(&vss.PublicKey{}) // sync
+			settle(e.h, in)
+			in.cancel()
+			if oc := outClosed[e.h]; oc != nil {
+				<-oc
+			}
+			if in.cancAt < 0 {
+				in.cancAt = i
+			}
+		}
+	}
+	deliver(&vss.PublicKey{}) // sentinel
+	for k, in := range insts {
+		settle(k, in)
+	}
+	for k, in := range insts {
+		in.cancel()
+		if oc := outClosed[k]; oc != nil {
+			<-oc
+		}
+	}
+	node.VerifCancel()
+	<-loopDone
+	return insts
+}
+
+func renderInc(insts map[int]*inst) string {
+	var ks []int
+	for k := range insts {
+		ks = append(ks, k)
+	}
+	sort.Ints(ks)
+	var parts []string
+	for _, k := range ks {
+		s := "-"
+		if g := insts[k].got; len(g) > 0 {
+			s = "c" + strconv.Itoa(g[0].tag)
+		}
+		parts = append(parts, fmt.Sprintf("h%d=%s", k, s))
+	}
+	if len(parts) == 0 {
+		return "none"
+	}
+	return strings.Join(parts, ";")
+}
+
+func oracleInc(rids [][]byte, evs []ev, insts map[int]*inst) string {
+	var ks []int
+	for k := range insts {
+		ks = append(ks, k)
+	}
+	sort.Ints(ks)
+	for _, k := range ks {
+		in := insts[k]
+		if len(in.got) > 1 {
+			return fmt.Sprintf("second-report: the stage of instance %d emitted %d values", k, len(in.got))
+		}
+		if len(in.got) == 1 && in.got[0].tag != in.class {
+			return fmt.Sprintf("foreign-content-counted: instance %d (own content class %d) reported content class %d: a share of another incarnation of the request id was counted", k, in.class, in.got[0].tag)
+		}
+		if len(in.got) == 1 {
+			ok := false
+			for j := range in.rids {
+				if bytes.Equal(rids[j], in.got[0].rid) {
+					ok = true
+				}
+			}
+			if !ok {
+				return fmt.Sprintf("crossover: instance %d reported under request id %s", k, h.Hex(in.got[0].rid))
+			}
+		}
+		if in.regs == 1 && in.cancAt < 0 && len(in.got) == 0 {
+			var j int
+			for jj := range in.rids {
+				j = jj
+			}
+			later, served := false, -1
+			for i, e := range evs {
+				if i <= in.regAt {
+					continue
+				}
+				if e.kind == 'r' && bytes.Equal(rids[e.j], rids[j]) {
+					later = true
+				}
+				if e.kind == 'a' && !later && bytes.Equal(rids[e.j], rids[j]) && e.c == in.class && served < 0 {
+					served = i
+				}
+			}
+			if served >= 0 {
+				return fmt.Sprintf("starved: instance %d (own content class %d, registered at event %d, not cancelled) never reported although the peer's share on its content arrived for its id at event %d while it was the registered pipeline", k, in.class, in.regAt, served)
+			}
+		}
+	}
+	return ""
+}
+
+// enumerateTok: every sequence with exactly k arrivals drawn from arr and each control at most once
+func enumerateTok(k int, arr, controls []string, maxLen int, emit func([]string)) {
+	used := make([]bool, len(controls))
+	var cur []string
+	var rec func(n int)
+	rec = func(n int) {
+		if n == k {
+			emit(cur)
+		}
+		if len(cur) >= maxLen {
+			return
+		}
+		if n < k {
+			for _, a := range arr {
+				cur = append(cur, a)
+				rec(n + 1)
+				cur = cur[:len(cur)-1]
+			}
+		}
+		for i, c := range controls {
+			if used[i] {
+				continue
+			}
+			used[i] = true
+			cur = append(cur, c)
+			rec(n)
+			cur = cur[:len(cur)-1]
+			used[i] = false
+		}
+	}
+	rec(0)
+}
+
 func render(insts map[int]*inst) string {
 	var ks []int
 	for k := range insts {
@@ -643,16 +936,24 @@ func exec(line string) (res h.Result) {
 	}
 	ch := make(chan map[int]*inst, 1)
 	stage := strings.HasPrefix(line, "stage ")
+	inc := strings.HasPrefix(line, "inc ")
 	go func() {
-		if stage {
+		switch {
+		case inc:
+			ch <- runInc(rids, evs)
+		case stage:
 			ch <- runStage(rids, evs)
-		} else {
+		default:
 			ch <- run(rids, evs)
 		}
 	}()
 	select {
 	case insts := <-ch:
-		if stage {
+		if inc {
+			res.Class = "incarnations " + res.Class
+			res.Impl = renderInc(insts)
+			res.Oracle = oracleInc(rids, evs, insts)
+		} else if stage {
 			res.Class = "stage " + res.Class
 			res.Impl = renderStage(insts)
 			res.Oracle = oracleStage(rids, evs, insts)
@@ -766,6 +1067,32 @@ func gen(tier string, rng *h.Rng, emit func(string)) {
 	for _, sp := range sspaces {
 		enumerate(sp.k, sp.nr, sp.controls, sp.maxLen, func(evs []string) {
 			emit("stage " + ridSets[n%len(ridSets)] + " " + evString(evs))
+			n++
+		})
+	}
+	// 1c. incarnations of one request id (a second id for isolation): the earlier one completes or is cancelled, or
+	//     is still live, when the later one registers; shares of either content arrive at every point
+	type ispace struct {
+		k        int
+		arr      []string
+		controls []string
+		maxLen   int
+	}
+	ispaces := []ispace{
+		{3, []string{"a0.0", "a0.1"}, []string{"r0.0.0", "c0", "r3.0.1"}, 6}, // the id is re-used for another content
+		{2, []string{"a0.0"}, []string{"r0.0.0", "c0", "r3.0.0", "x"}, 6},    // the same request again
+		{2, []string{"a0.0", "a0.1", "a1.0"}, []string{"r0.0.0", "r3.0.1", "r1.1.0"}, 5},
+	}
+	if thorough {
+		ispaces = []ispace{
+			{4, []string{"a0.0", "a0.1"}, []string{"r0.0.0", "c0", "r3.0.1", "c3"}, 8},
+			{3, []string{"a0.0", "a0.1"}, []string{"r0.0.0", "c0", "r3.0.0", "x"}, 7},
+			{3, []string{"a0.0", "a0.1", "a1.0"}, []string{"r0.0.0", "r3.0.1", "r1.1.0", "c0"}, 7},
+		}
+	}
+	for _, sp := range ispaces {
+		enumerateTok(sp.k, sp.arr, sp.controls, sp.maxLen, func(evs []string) {
+			emit("inc " + ridSets[n%len(ridSets)] + " " + evString(evs))
 			n++
 		})
 	}
